@@ -179,6 +179,7 @@ def bounded_pipeline_skip(p):
       if not S.check(got == ('ok', exp), dict(op='filter', bad=list(bad), num_threads=threads), f'filter bad={bad} threads={threads}: {got}; expected {exp}', cls='filter'):
         return S.result()
       # --- sink is closed also when the first error surfaces ---
+      import gc
       sink = _Sink()
       def run_sink():
         pl = transform.TreeTransform(num_threads=threads).apply(fn).sink(sink)
@@ -202,6 +203,26 @@ def bounded_pipeline_skip(p):
       exp = [flat[s:s + bs] for s in range(0, len(flat), bs)]
       if not S.check(got == ('ok', exp), dict(op='TreeFn', bad=list(bad), fn_batch_size=fbs, batch_size=bs, ignore_error=True),
                      f'TreeFn(fn_batch_size={fbs}, batch_size={bs}, ignore_error) bad={bad}: {got}; expected {exp}', cls=f'rebatch-{fbs}'):
+        return S.result()
+    # --- a sink UPSTREAM of a failing operator is (at the latest after garbage collection) closed exactly once
+    sink2 = _Sink()
+    def run_sink_upstream():
+      pl = transform.TreeTransform().sink(sink2).apply(fn)
+      return list(pl.make().iterate(range(n), ignore_error=False))
+    got = expect(run_sink_upstream)
+    gc.collect()
+    if not S.check(sink2.closed == 1, dict(op='sink upstream', bad=list(bad), closed=sink2.closed), f'sink upstream of a failing operator, bad={bad}: run {got[0]}, closed {sink2.closed} time(s) after gc', cls='sink-upstream'):
+      return S.result()
+    # --- a restored source keeps skipping: checkpoint, restore, then a failing element ---
+    for sliceable in (True, False):
+      def run_restored():
+        ds = io.SequenceDataSource(FaultySeq(n, bad, sliceable), ignore_error=True)
+        it = ds.iterate()
+        # checkpoint before anything was read (a checkpoint AFTER a skipped element is finding D11 of C10)
+        it2 = it.from_state(it.state)
+        return list(it2)
+      got = expect(run_restored)
+      if good and not S.check(got == ('ok', good), dict(op='restored source', bad=list(bad), sliceable=sliceable), f'restored SequenceDataSource(ignore_error) bad={bad}: {got}; expected {good}', cls='restored-source'):
         return S.result()
     # --- data source faults: random access source with unreadable elements ---
     for sliceable in (True, False):
